@@ -424,3 +424,26 @@ class EvaluatorCall(Contract):
     def frame(self, a, p, kind, pre):
         return [("no-stores(a call changes nothing)", z3.BoolVal(not [e for e in p.effects if e[0] in ("store-attr", "io")])),
                 ("deterministic(no havoc)", z3.BoolVal(not p.havoc))]
+
+
+class UnroutableErrorInit(Contract):
+    """the dedicated unroutable-condition error (C02): an Exception subclass whose constructor only calls Exception.__init__"""
+    target = "pyab_experiment.codegen.python.custom_exceptions:ExperimentConditionalFailedError.__init__"
+    props = ("C02", "C07")
+
+    def shapes(self):
+        def build(p):
+            return Args(self=p.new_obj("pyab_experiment.codegen.python.custom_exceptions.ExperimentConditionalFailedError", origin="self"), message=z3.String("message"))
+        return [Shape("self,str", build)]
+
+    def ensures(self, a, r, p):
+        import ast as _ast
+        mod = self.module()
+        cls = next((n for n in mod.tree.body if isinstance(n, _ast.ClassDef) and n.name == "ExperimentConditionalFailedError"), None)
+        is_exc = cls is not None and [_ast.unparse(b) for b in cls.bases] == ["Exception"]
+        calls = [e for e in p.effects if e[0] == "call" and e[1] == "super().__init__"]
+        return [("is-a-plain-Exception-subclass", z3.BoolVal(bool(is_exc))),
+                ("constructs-the-exception-with-its-message", z3.BoolVal(len(calls) == 1))]
+
+    def frame(self, a, p, kind, pre):
+        return [("no-stores-outside-self", z3.BoolVal(not [e for e in p.effects if e[0] in ("store-global", "io")]))]
